@@ -29,7 +29,7 @@ GROUPS = ("domain", "samplers", "special")
 
 
 def items(tier):
-    exprs = L.dedupe(L.solids(tier) + L.boundary_exprs(tier) + L.products(tier) + L.default_exprs(tier) + L.lowdim_unions(tier))
+    exprs = L.dedupe(L.solids(tier) + L.boundary_exprs(tier) + L.products(tier) + L.default_exprs(tier) + L.lowdim_unions(tier) + L.mesh_extras(tier))
     out = []
     for a in exprs:
         for g in GROUPS:
